@@ -109,20 +109,73 @@ static void one_damage(hctx* h, const uint8_t* base, size_t n, const pageloc* pl
     free(dmg); unlink(path);
 }
 
+#include <zlib.h>
+/* four bytes X such that crc32(P ++ X) == target (CRC-32 is affine in X: solve the 32x32 system over GF(2)) */
+static uint32_t force_crc(const uint8_t* P, size_t n, uint32_t target) {
+    uint8_t* buf = h_alloc(n + 4); memcpy(buf, P, n); memset(buf + n, 0, 4);
+    uint32_t base = (uint32_t)crc32(0L, buf, (uInt)(n + 4));
+    uint32_t col[32];
+    for (int i = 0; i < 32; i++) { memset(buf + n, 0, 4); buf[n + i / 8] = (uint8_t)(1u << (i % 8)); col[i] = (uint32_t)crc32(0L, buf, (uInt)(n + 4)) ^ base; }
+    /* Gaussian elimination: find x with XOR_{i in x} col[i] == target ^ base */
+    uint32_t want = target ^ base, x = 0, rows[32], comb[32];
+    for (int i = 0; i < 32; i++) { rows[i] = col[i]; comb[i] = 1u << i; }
+    for (int bit = 31; bit >= 0; bit--) {
+        int piv = -1;
+        for (int i = 0; i < 32; i++) if ((rows[i] >> bit) & 1u) { int lower = 0; for (int b2 = 31; b2 > bit; b2--) if ((rows[i] >> b2) & 1u) lower = 1; if (!lower) { piv = i; break; } }
+        if (piv < 0) continue;
+        for (int i = 0; i < 32; i++) if (i != piv && ((rows[i] >> bit) & 1u)) { rows[i] ^= rows[piv]; comb[i] ^= comb[piv]; }
+        if ((want >> bit) & 1u) { want ^= rows[piv]; x ^= comb[piv]; }
+    }
+    free(buf);
+    return x;
+}
+
+/* a one-column REQUIRED INT32 UNCOMPRESSED file whose single page body has the given CRC-32 */
+static uint8_t* write_forced(hctx* h, size_t* n, uint32_t target) {
+    char path[128]; snprintf(path, sizeof path, "/tmp/verif_pg_%d_f.parquet", (int)getpid());
+    int nv = 2 + (int)h_below(h, 6);
+    int32_t vals[8]; for (int i = 0; i < nv - 1; i++) vals[i] = (int32_t)h_next(h);
+    uint32_t x = force_crc((const uint8_t*)vals, (size_t)(nv - 1) * 4, target); memcpy(&vals[nv - 1], &x, 4);
+    carquet_error_t err; memset(&err, 0, sizeof err);
+    carquet_schema_t* sc = carquet_schema_create(&err);
+    (void)!carquet_schema_add_column(sc, "v", CARQUET_PHYSICAL_INT32, NULL, CARQUET_REPETITION_REQUIRED, 0);
+    carquet_writer_options_t wo; carquet_writer_options_init(&wo);
+    carquet_writer_t* w = carquet_writer_create(path, sc, &wo, &err);
+    (void)!carquet_writer_write_batch(w, 0, vals, nv, NULL, NULL);
+    (void)!carquet_writer_close(w); carquet_schema_free(sc);
+    FILE* f = fopen(path, "rb"); fseek(f, 0, SEEK_END); long sz = ftell(f); fseek(f, 0, SEEK_SET);
+    uint8_t* b = h_alloc((size_t)sz); if (fread(b, 1, (size_t)sz, f) != (size_t)sz) sz = 0; fclose(f); unlink(path);
+    *n = (size_t)sz; return b;
+}
+
+static void damage_pages(hctx* h, const uint8_t* base, size_t n, int per);
+
 static void gen_pagecrc(hctx* h) {
+    /* boundary-directed: page bodies whose checksum takes the values a presence test could confuse with "absent" */
+    static const uint32_t targets[] = { 0u, 0xFFFFFFFFu, 1u, 0x80000000u };
+    for (int t = 0; t < 4; t++) { size_t n; uint8_t* b = write_forced(h, &n, targets[t]); damage_pages(h, b, n, 9); free(b); }
+
     static const int codecs[] = { 0, 1, 6, 7, 2 };
     int files = h->thorough ? 20 : 5;
     for (int fi = 0; fi < files; fi++) {
         size_t n; uint8_t* base = write_base(h, &n, codecs[fi % 5]);
+        damage_pages(h, base, n, h->thorough ? 30 : 12);
+        free(base);
+    }
+}
+
+static void damage_pages(hctx* h, const uint8_t* base, size_t n, int per_page) {
         pageloc pl[64]; int np = find_pages(base, n, pl, 64);
         for (int p = 0; p < np; p++) {
-            if (!pl[p].has_crc || pl[p].len == 0) continue;
+            fprintf(h->out, "pgcrc rg=%d col=%d page=%d len=%zu crc=%u | has_crc=%d p_page_has_crc=%d\n", pl[p].rg, pl[p].col, pl[p].page, pl[p].len, pl[p].crc, pl[p].has_crc, pl[p].has_crc);
+            h->n_lines++;
+            if (pl[p].len == 0) continue;
             size_t bits = pl[p].len * 8;
             if (h->thorough && bits <= 8 * 96) {
                 /* every single bit of the page body, in all three modes */
                 for (size_t b = 0; b < bits; b++) { uint8_t m[1] = { 1 }; one_damage(h, base, n, &pl[p], (int)(b % 3), b, m, 1); }
             }
-            int per = h->thorough ? 30 : 12;
+            int per = per_page;
             for (int k = 0; k < per; k++) {
                 uint8_t m[5] = { 0, 0, 0, 0, 0 }; int w = 1 + (int)h_below(h, 32);
                 switch (k % 4) {
@@ -137,8 +190,6 @@ static void gen_pagecrc(hctx* h) {
                 one_damage(h, base, n, &pl[p], k % 3, start, m, 5);
             }
         }
-        free(base);
-    }
 }
 
 static int replay_pagecrc(hctx* h, const h_line* l) { (void)h; (void)l; return 0; }  /* needs the whole file; re-run by seed */
